@@ -32,7 +32,7 @@ class C15(Prop):
     shard = 20
     rule = ("well-scaled systems and targets as in C03/C04/C06, unit changes s (intensity) and c (capture) that are powers of two (exact rescaling in floating point) or "
             "arbitrary, chosen so that BOTH twins stay in the well-scaled regime (asserted stream), plus a WIDE asserted stream with c in [100, 1e4] (captures >= 1 without upper limit, bounds kept in [0.05, 10]) in which membership, range ends and predictions must still scale exactly and the twin's fit certificate is judged at c times the tolerance; per pair: fit (default and tight solver settings), in_hull on targets "
-            "inside/outside by a relative margin, range_of_solutions for underdetermined systems. A stress stream with s, c in [1e-4, 1e4] outside the regime is run and "
+            "inside/outside by a relative margin, range_of_solutions for underdetermined systems (with equally spaced solutions requested when there is one surplus source); the fitted target is the first row of a call with up to three more targets in 40 % of the pairs. A stress stream with s, c in [1e-4, 1e4] outside the regime is run and "
             "recorded in the evidence but never asserted (as the property says). non-trivial = s != 1 and c != 1")
     assumptions = ["both fits carry the C04 weak-duality certificate in their own units; predictions are compared at the C04 accuracy of both twins (2e-2 / 2e-3 capture units each)",
                    "range ends compared at rtol 1e-9; membership compared on targets with a relative margin"]
@@ -76,19 +76,27 @@ class C15(Prop):
             if not stress and not ok:
                 continue
             ser = lambda d: {k: (v.tolist() if isinstance(v, np.ndarray) else v) for k, v in d.items()}
+            extra = []
+            if rng.random() < 0.4:
+                for _ in range(rng.randint(1, 3)):
+                    g2 = gs.gen_target_regime(rng, sys, rng.choice(["inside", "outside", "far"]))
+                    if g2 is not None and (stress or wide or in_regime(ts, np.asarray(g2[1]) * c)):
+                        extra.append(np.asarray(g2[1]).tolist())
             cases.append({"sys": ser(sys), "b": np.asarray(b).tolist(), "x": None if x is None else np.asarray(x).tolist(), "tk": kind,
+                          "extra": extra, "spaced": (rng.choice([3, 5]) if rng.random() < 0.6 else None),
                           "s": float(s), "c": float(c), "acc": rng.choice(["default", "high"]), "stress": bool(stress and not ok), "under": under, "wide": bool(wide), "intb": intb,
                           "kind": "%s/%s/%s" % ("stress" if (stress and not ok) else ("wide" if wide else "asserted"), kind, "under" if sys["n"] > sys["m"] else "det")})
         return cases
 
-    def one(self, sys, b, case, hull_targets, ints=False):
+    def one(self, sys, b, case, hull_targets, ints=False, extra=()):
         if ints:
             sys = dict(sys, lb=np.asarray(sys["lb"]).astype(int), ub=np.asarray(sys["ub"]).astype(int))
         est = gs.make_estimator(sys)
         kw = dict(HI) if case["acc"] == "high" else {}
         r = {}
         try:
-            X, Bp = est.fit(np.asarray(b)[None], **kw)
+            # the judged target is the first of several fitted in one call (the others: the same targets in the twin's units)
+            X, Bp = est.fit(np.vstack([np.asarray(b)[None]] + ([np.asarray(extra)] if len(extra) else [])), **kw)
             r["X"] = np.asarray(X, dtype=float)[0].tolist(); r["Bpred"] = np.asarray(Bp, dtype=float)[0].tolist()
         except Exception as e:  # noqa
             r["fit_error"] = "%s: %s" % (type(e).__name__, str(e)[:80])
@@ -98,7 +106,12 @@ class C15(Prop):
             r["hull_error"] = type(e).__name__
         if sys["n"] > sys["m"] and case["tk"] == "inside":
             try:
-                mn, mx = est.range_of_solutions(np.asarray(b)[None])
+                if sys["n"] == sys["m"] + 1 and case.get("spaced"):
+                    # equally spaced solutions requested as well (one surplus source: exactly n of them, in a fixed order)
+                    mn, mx, Xs = est.range_of_solutions(np.asarray(b)[None], n=case["spaced"])
+                    r["spaced"] = np.asarray(Xs[0], dtype=float).tolist()
+                else:
+                    mn, mx = est.range_of_solutions(np.asarray(b)[None])
                 r["rng"] = [np.asarray(mn, dtype=float)[0].tolist(), np.asarray(mx, dtype=float)[0].tolist()]
             except Exception as e:  # noqa
                 r["rng_error"] = type(e).__name__
@@ -147,8 +160,9 @@ class C15(Prop):
         s, c = case["s"], case["c"]
         ts = twin_sys(sys, s, c)
         T = self.hull_targets(case, sys)
-        r1 = self.one(sys, np.asarray(case["b"]), case, T, ints=bool(case.get("intb")))
-        r2 = self.one(ts, np.asarray(case["b"]) * c, case, T * c)
+        ex = np.asarray(case.get("extra") or np.zeros((0, sys["m"])), dtype=float)
+        r1 = self.one(sys, np.asarray(case["b"]), case, T, ints=bool(case.get("intb")), extra=ex)
+        r2 = self.one(ts, np.asarray(case["b"]) * c, case, T * c, extra=ex * c)
         return {"orig": r1, "twin": r2}
 
     def tols(self, case):
@@ -175,8 +189,9 @@ class C15(Prop):
             f1 = f2 = "None"
         bl = lambda v: "[" + ";".join(cbool(x) for x in v) + "]"
         rg = lambda r: "(Some (%s, %s))" % (qv(r["rng"][0]), qv(r["rng"][1])) if "rng" in r else "None"
-        return "(Equiv.Build_case %s %s %s %s %s %s %s %s %s %s)" % (
-            q(s), q(c), f1, f2, bl(r1.get("hull", [])), bl(r2.get("hull", [])), rg(r1), rg(r2), q(tolc * (1 + 1 / c)), q(1e-9))
+        sp = lambda r: qm(r["spaced"]) if ("spaced" in r and "spaced" in r1 and "spaced" in r2) else "[]"
+        return "(Equiv.Build_case %s %s %s %s %s %s %s %s %s %s %s %s)" % (
+            q(s), q(c), f1, f2, bl(r1.get("hull", [])), bl(r2.get("hull", [])), rg(r1), rg(r2), sp(r1), sp(r2), q(tolc * (1 + 1 / c)), q(1e-9))
 
     def spec_violation(self, case, out):
         if "error" in out:
@@ -195,6 +210,10 @@ class C15(Prop):
             a = np.array(r1["rng"]) / s; b_ = np.array(r2["rng"])
             if np.max(np.abs(a - b_)) > 1e-9 * (1 + np.max(np.abs(b_))):
                 return {"what": "solution ranges do not scale by 1/s (s=%r): %s vs %s" % (s, a.tolist(), b_.tolist()), "class": "range-scale"}
+        if "spaced" in r1 and "spaced" in r2:
+            a = np.array(r1["spaced"]) / s; b_ = np.array(r2["spaced"])
+            if a.shape != b_.shape or np.max(np.abs(a - b_)) > 1e-9 * (1 + np.max(np.abs(b_))):
+                return {"what": "equally spaced solutions do not scale by 1/s (s=%r): %s vs %s" % (s, a.tolist()[:2], b_.tolist()[:2]), "class": "spaced-scale"}
         if "Bpred" in r1 and "Bpred" in r2:
             tol = self.tols(case) * (1 + c)
             d = np.max(np.abs(np.array(r1["Bpred"]) * c - np.array(r2["Bpred"])))
